@@ -30,12 +30,20 @@ def check(ctx):
         'table: norms and unit-ball indicators (Lp, group-L1, nuclear) are '
         'conjugate to each other with the dual exponent p/(p-1) (1 <-> inf) '
         'in both directions, for p in {1, 2, inf, 3, 3/2}; the Kullback-'
-        'Leibler pairs forward space and prior.',
+        'Leibler pairs forward space and prior.  R5: concrete '
+        'functionals evaluated at designated points on weighted model '
+        'spaces: Fenchel-Young with equality at the gradient (symbolic '
+        'differentiation of the evaluated value), the inequality at y = '
+        'g/2 and 2g where its sign is decidable, f** = f (inf outside the '
+        'domain of an indicator), Moreau decomposition entrywise.',
         ['CPython ast', 'closed-form conjugate/proximal of a convex '
          'quadratic on the weighted line', 'operator/functional arithmetic '
-         'means what the table says (C04)'],
-        ['Fenchel-Young for non-quadratic functionals', 'numerical values',
-         'pairing of the non-quadratic built-ins (norms / indicators)'])
+         'means what the table says (C04)', 'NumPy primitives mean what '
+         'the array model says'],
+        ['Fenchel-Young at pairs (x, y) other than the designated ones',
+         'clauses skipped and counted per instance (NotImplementedError, '
+         'Lambert W, kinks at the designated point)',
+         'infimal convolution (no evaluable value in the library)'])
     model = Model(ctx)
     n = 0
     for name, (builder, aspects) in instances().items():
